@@ -10,6 +10,10 @@ LEVEL_TEXT = ("static: decides on every path (a) the insert filter (rcode in {NO
 # fifth-round additions
 TECHNIQUE += "; " + 'typestate over ares_servers_update extended to position changes and to every return (failure paths included)'
 LEVEL_TEXT += " " + '(FLUSH) adding, removing or moving a server makes the update dirty, and a dirty update is flushed on every return, also one that reports an error after part of the change was made.'
+# seventh-round addition
+TECHNIQUE += "; exact evaluation of calc_minttl's section loop and skip condition for every (section, record type) pair of the public enums"
+LEVEL_TEXT += (" (FILTER, seventh round) the TTL minimum is taken over the answer, authority and additional sections and over every record type except OPT, SIG and an SOA outside the "
+               "answer section, decided by interpreting the function's own conditions for all 3 x 20 pairs.")
 LEVEL_NOTE = "trusts clang CFG + extractor; rr->ttl readers are enumerated over the whole library (field access by record type, not by name)"
 DESIGN_REF = "DESIGN.md §6/C08"
 EXPLANATION = LEVEL_TEXT
@@ -196,6 +200,7 @@ def r_filter(prog, R):
         r.ok("minttl-is-minimum", g.loc(g.ln))
     else:
         r.viol("minttl-is-minimum", g.name, g.loc(g.ln), "calc_minttl no longer keeps the smallest TTL (ttl < minttl -> minttl = ttl)")
+    _minttl_domain(prog, r, g, lows)
     s = prog.func("ares_qcache_soa_minimum")
     oks = False
     for bid in s.rpo():
@@ -211,6 +216,53 @@ def r_filter(prog, R):
         r.ok("soa-min(minimum,ttl)", s.loc(s.ln))
     else:
         r.viol("soa-min(minimum,ttl)", s.name, s.loc(s.ln), "negative-cache lifetime is not min(SOA MINIMUM, SOA ttl)")
+
+
+def _minttl_domain(prog, r, g, lows):
+    """which (section, record type) pairs take part in the minimum: decided by walking calc_minttl's own conditions for every section value the
+    outer loop produces and every record type of the public enum (evalx.run_cfg; nothing is executed)"""
+    import evalx
+    k1 = "calc_minttl visits the answer, authority and additional sections"
+    k2 = "calc_minttl counts every record type except OPT, SIG and an SOA outside the answer section"
+    if not lows:
+        return
+    want_sect = {it["n"]: it["v"] for it in prog.enum("ares_dns_section_t")["items"]}
+    types = {it["n"]: it["v"] for it in prog.enum("ares_dns_rec_type_t")["items"]}
+    need = {want_sect.get("ARES_SECTION_ANSWER"), want_sect.get("ARES_SECTION_AUTHORITY"), want_sect.get("ARES_SECTION_ADDITIONAL")}
+    incs = [(b, i) for b, i, el in g.elements() if el["k"] == "asg" and el["e"]["op"] in ("++", "+=") and is_var(strip(el["e"]["l"]), "sect")]
+    tdecl = [(b, i) for b, i, el in g.elements() if el["k"] == "decl" and any(v["n"] == "type" for v in el["vars"])]
+    if not r.require(len(incs) == 1 and len(tdecl) == 1 and None not in need, "calc_minttl: section loop step or the record-type local not found"):
+        return
+    try:
+        sects, out = [], {}
+        res = evalx.run_cfg(g, {"sect": 0}, out=out)
+        hdr = res[1] if res[0] == "open" else None
+        while res[0] == "open" and res[1] == hdr and len(sects) < 8:
+            sects.append(out["sect"])
+            res = evalx.run_cfg(g, {"sect": out["sect"]}, start=incs[0][0].id, start_idx=incs[0][1], out=out)
+        if res[0] != "ret":
+            r.broke("calc_minttl: section loop not interpretable (%s)" % (res,))
+            return
+        if need <= set(sects):
+            r.ok(k1, g.loc(g.ln), note="sections %s" % sorted(sects))
+        else:
+            r.viol(k1, g.name, g.loc(g.ln), "the TTL minimum is taken over sections %s only: a record with a shorter TTL in section %s does not shorten the lifetime, so the response is replayed after "
+                   "one of its own records has expired" % (sorted(sects), sorted(need - set(sects))))
+        tb, ti = tdecl[0]
+        wrong = []
+        for sv in sorted(set(sects) & need):
+            for tn, tv in sorted(types.items()):
+                res = evalx.run_cfg(g, {"sect": sv, "type": tv}, start=tb.id, start_idx=len(tb.els))
+                counted = res[0] == "open" and res[1] in lows
+                expect = not (tn in ("ARES_REC_TYPE_OPT", "ARES_REC_TYPE_SIG") or (tn == "ARES_REC_TYPE_SOA" and sv != want_sect["ARES_SECTION_ANSWER"]))
+                if counted != expect:
+                    wrong.append("%s in section %d is %s" % (tn, sv, "counted" if counted else "skipped"))
+        if not wrong:
+            r.ok(k2, g.loc(g.ln), note="%d (section, type) pairs" % (len(set(sects) & need) * len(types)))
+        else:
+            r.viol(k2, g.name, g.loc(g.ln), "; ".join(wrong[:4]) + ": a record whose TTL is an ordinary lifetime must bound the cache lifetime; OPT/SIG carry no lifetime in that field")
+    except evalx.Unknown as ex:
+        r.broke("calc_minttl: not interpretable: %s" % ex)
 
 
 def r_nottl(prog, R):
